@@ -56,7 +56,7 @@ pub fn run(ctx: Ctx) -> ! {
         _ => {}
     });
     if sum.classes.len() < 10 || sum.accepted_by_era.len() < 7 {
-        mc_core::report::machinery_failure(&format!("C33 exploration degenerate: {} outcome classes, accepted per era {:?}", sum.classes.len(), sum.accepted_by_era));
+        crate::fail(&format!("C33 exploration degenerate: {} outcome classes, accepted per era {:?}", sum.classes.len(), sum.accepted_by_era));
     }
     // confirm / refute the suspected sites
     let s = sites.lock().unwrap();
